@@ -48,7 +48,7 @@ def setup() -> None:
 
 def budget(tier: str) -> int:
     # quick: a seeded 1/8 slice of the exhaustive family + random cases; thorough: the whole family + many random
-    return 6000 if tier == "quick" else FAMILY + 30000
+    return 6000 if tier == "quick" else FAMILY + 150000
 
 
 def _family_matrix(idx: int) -> List[List[int]]:
